@@ -60,7 +60,8 @@ def main():
     run.scope = ("%d seeded small tree sequences (integer coordinates) x within / between sample sets x min_span (incl. values "
                  "equal to a segment span) x max_time (incl. node times) x store_pairs/store_segments" % N)
     for k in range(N):
-        t = O.random_tables(run.rng, sites=False, max_breaks=3, internal_samples=True, integer_coords=True, L=float(run.rng.choice([4, 6, 10])))
+        t = O.random_tables(run.rng, sites=False, max_breaks=3, internal_samples=True, integer_coords=True, L=float(run.rng.choice([4, 6, 10])),
+                            odd_flags=(k % 3 == 0))
         ts = t.tree_sequence()
         n = t.nodes.num_rows
         nodes = list(range(n))
@@ -118,4 +119,4 @@ def main():
 
 
 if __name__ == "__main__":
-    main()
+    O.run_main(main)
